@@ -350,7 +350,8 @@ def value_matches(nn, site, dinfo, sa, sb):
         for e in (ex, ey):
             if e[0] != e[2]:
                 return False, f"position typed in {show(e[2], 40)} subscripts container {show(e[0], 40)} (IST-2)"
-        if (strip(ex[1]) == strip(site.a) and strip(ey[1]) == strip(site.b)) or (strip(ex[1]) == strip(site.b) and strip(ey[1]) == strip(site.a)):
+        U = nn.unwrap       # int(position) is the position
+        if (U(ex[1]) == U(site.a) and U(ey[1]) == U(site.b)) or (U(ex[1]) == U(site.b) and U(ey[1]) == U(site.a)):
             return True, "ok"
         return False, f"distance of positions ({show(ex[1], 40)}, {show(ey[1], 40)}) reported for ({show(site.a, 40)}, {show(site.b, 40)})"
     if kind.startswith("BFS"):
@@ -671,10 +672,10 @@ def resolve_callee(nn, q, call):
         obj = strip(f[1])
         if is_call(obj) and head(strip(obj[1])) == "glob" and strip(obj[1])[1] in P.classes:
             m = P.find_method(strip(obj[1])[1], f[2])
-            return m, obj
+            return m, (None if m and P.functions[m].is_static else obj)
         if obj == ("param", "self") and P.functions[q].cls:
             m = P.find_method(P.functions[q].cls, f[2])
-            return m, obj
+            return m, (None if m and P.functions[m].is_static else obj)
     return None, None
 
 
@@ -1088,7 +1089,8 @@ def check_index_builder(r, rule):
             ins.append(e)
         elif e.kind == "call" and is_mcall(e["term"], "append"):
             recv = strip(strip(e["term"][1])[1])
-            if (head(recv) == "sub" and recv[1] == target) or (is_mcall(recv, "setdefault") and strip(recv[1])[1] == target):
+            if (head(recv) == "sub" and recv[1] == target) or (is_mcall(recv, "setdefault") and strip(recv[1])[1] == target) \
+                    or (is_mcall(recv, "get") and strip(recv[1])[1] == target):       # positions = d.get(key); ...; positions.append(i)
                 ins.append(e)
     if not ins:
         raise AnalysisBroken(f"{q}: no insertion into variant_dict found")
@@ -2148,7 +2150,7 @@ def pair_source_verdict(nn, q, st):
     True / 'collected'  - combinations(values, 2) over a variant's whole position list, directly or collected into a set first;
     False               - combinations over something else (a subset or regrouping of the list: pairs across the groups are lost);
     None                - no combinations call in sight (cannot decide).   Second component: text for the report."""
-    a = strip(st.a)
+    a = nn.unwrap(st.a)
     it = strip(a[1])[-1] if head(a) == "item" and head(strip(a[1])) in ("iter", "citer") else None
     if it is None:
         return None, show(a, 60)
@@ -2192,7 +2194,8 @@ def check_symdel_pairs(r, rule, cd_modes):
         sites = [x for x in engine_sites_safe(nn, mode) if x[0] == "symdel-self"]
         mname = MODE_NAME[mode]
         w = wh(r, q, sites[0][1].node) if sites else wh(r, q, nn.summary(q).func.node)
-        ok_pair = len(sites) == 2 and strip(sites[0][1].a) == strip(sites[1][1].b) and strip(sites[0][1].b) == strip(sites[1][1].a) and strip(sites[0][1].d) == strip(sites[1][1].d) \
+        U = nn.unwrap
+        ok_pair = len(sites) == 2 and U(sites[0][1].a) == U(sites[1][1].b) and U(sites[0][1].b) == U(sites[1][1].a) and strip(sites[0][1].d) == strip(sites[1][1].d) \
             and sites[0][1].guards == sites[1][1].guards
         if not sites:
             rep.require(False, f"{q}: no triplet insertion found in the one-collection branch (moved out of reach of the site analysis); cannot decide [{rule}]")
